@@ -175,7 +175,7 @@ def run(ck):
     # rebuilt atoms are bonded to every neighbour that is present at that moment
     wl = [n for n in rr.body if isinstance(n, ast.While)]
     ck.need(len(wl) == 1, 'repair_residue: rebuilding loop not found')
-    fl = [n for n in wl[0].body if isinstance(n, ast.For) and u(n.iter) == 'missing']
+    fl = [n for n in wl[0].body if isinstance(n, ast.For) and u(n.iter) in ('missing', 'list(missing)', 'tuple(missing)', 'missing[:]', 'missing.copy()')]
     ck.need(len(fl) == 1, 'repair_residue: loop over the missing atoms not found')
     body = fl[0].body
     mstore = [s for s in body if isinstance(s, ast.Assign) and u(s.targets[0]) == 'match[ref_idx]' and u(s.value) == 'res_idx']
